@@ -12,7 +12,7 @@ From J5V.proofs Require Import CmpbOrderProofs CmpbComposeProofs CmpbStateProofs
 From J5V.model Require ProtoPrintFile.
 From J5V.proofs Require CmpbPrintBridgeProofs CmpbPrintBridgeExample ProtoPrintFileExample.
 From J5V.model Require CmpbBytes.
-From J5V.proofs Require CmpbBytesProofs CmpbBytesExampleProofs.
+From J5V.proofs Require CmpbBytesProofs CmpbBytesExampleProofs CmpbBytesDepsProofs.
 Import ListNotations.
 Local Open Scope N_scope.
 
@@ -107,6 +107,28 @@ Proof.
         (conj CmpbBytesExampleProofs.exb_range_differs CmpbBytesExampleProofs.exb_total))))))))).
 Qed.
 Print Assumptions C14_example_output_bytes.
+
+(* the Dependency list INSIDE those descriptors: cmpa's converter builds fl_deps with J5sConvert.deps_of, which is this
+   family's ensure_all (the function C14's correspondence CImportsIso compares with real Dependency lists) of the
+   ensureImport calls other than the file itself - so it depends on the SET of calls only *)
+Theorem C14_descriptor_dependency_list : forall self imps1 imps2,
+  J5sConvert.deps_of self imps1 = ensure_all (filter (fun i => negb (beqb i self)) imps1)
+  /\ ((forall x, In x imps1 <-> In x imps2) -> J5sConvert.deps_of self imps1 = J5sConvert.deps_of self imps2).
+Proof.
+  exact (fun self i1 i2 => conj (CmpbBytesDepsProofs.deps_of_is_ensure_all self i1) (CmpbBytesDepsProofs.deps_of_set_invariant self i1 i2)).
+Qed.
+Print Assumptions C14_descriptor_dependency_list.
+
+(* Package.checkDuplicateExports (loadLocalPackage calls it for every file before includeIO): its key collection is sorted
+   before use, and on a valid bundle it never fires whatever files the listing order put before this one - which is why
+   it is not a step of [load] *)
+Theorem C14_duplicate_export_check : forall (F : Type) (pre post : list (@srcfile F)) f k1 k2,
+  (Permutation k1 k2 -> check_duplicate_exports (collect_exports pre) k1 = check_duplicate_exports (collect_exports pre) k2)
+  /\ (valid_pkg (pre ++ f :: post) -> check_duplicate_exports (collect_exports pre) (f_exports f) = None).
+Proof.
+  exact (fun F pre post f k1 k2 => conj (check_duplicate_exports_perm (collect_exports pre) k1 k2) (check_duplicate_exports_valid pre post f)).
+Qed.
+Print Assumptions C14_duplicate_export_check.
 
 (* ---- the accounting of the Go code's unordered iterations *)
 Theorem C14_order_sites_agree : order_sites_same_set = true.
